@@ -120,6 +120,38 @@ def run(run):
                     run.violation(f"flat_tree denotes a different tree for path {path}", dict(d0, api="flat_tree"), tags=["flat_tree"])
         except Exception as e:
             run.violation(f"conversion raised {core.exc_text(e)} on path {path} (N={n})", d0, tags=["raised"])
+    # general paths (single-tensor and three-way steps), emitted by TLC from MC_PathsGen
+    res = mc.run_mc("MC_PathsGen", workers=4)
+    run.tlc(res)
+    run.extra["mc_instances"]["MC_PathsGen"] = {"states": res.distinct, "exhaustive": True, "MaxN": 4, "MaxSingles": 2}
+    res = mc.run_mc("MC_PathsGen_emit", workers=1, module="MC_PathsGen")
+    run.tlc(res)
+    gpaths = [(v[0], [tuple(p) for p in v[1]]) for v in res.verdicts]
+    run.extra["general_paths_emitted_by_tlc"] = len(gpaths)
+    if quick:
+        gpaths = rng.sample(gpaths, 500)
+    for n, path in gpaths:
+        net = nets_by_n.setdefault(n, [net_for(rng, n) for _ in range(3)])[rng.randrange(3)]
+        d0 = {"N": n, "path": [list(p) for p in path], "net": net.to_json()}
+        multi = any(len(p) > 2 for p in path)
+        try:
+            with core.watchdog(60):
+                ssa = pb.linear_to_ssa(path, n)
+                add({"kind": "lin2ssa", "N": n, "path": path, "got": [list(s) for s in ssa]}, dict(d0, api="linear_to_ssa (general)"))
+                lin = pb.ssa_to_linear(ssa, n)
+                add({"kind": "ssa2lin", "N": n, "path": [list(s) for s in ssa], "got": [list(s) for s in lin]},
+                    dict(d0, api="ssa_to_linear (general)"))
+                t1 = ct.ContractionTree.from_path(net.c_inputs(), net.c_output(), net.c_sizes(), path=path)
+                add({"kind": "from_lin_multi" if multi else "from_lin", "N": n, "path": path, "ch": ch0(t1)},
+                    dict(d0, api="from_path(path=) (general)"))
+                t2 = ct.ContractionTree.from_path(net.c_inputs(), net.c_output(), net.c_sizes(), ssa_path=ssa)
+                add({"kind": "from_ssa_multi" if multi else "from_ssa", "N": n, "path": [list(s) for s in ssa], "ch": ch0(t2)},
+                    dict(d0, api="from_path(ssa_path=) (general)"))
+                if not multi and {frozenset(x) for x in t1.children} != {frozenset(x) for x in t2.children}:
+                    run.violation(f"from_path(path=P) and from_path(ssa_path=linear_to_ssa(P)) give different trees for {path}", d0,
+                                  tags=["lin-vs-ssa"])
+        except Exception as e:
+            run.violation(f"conversion raised {core.exc_text(e)} on general path {path} (N={n})", d0, tags=["raised"])
     # edge paths: every permutation of the indices of small networks
     pool = [n_ for n_ in nets.net_pool(rng, 14 if quick else 60, nmin=2, nmax=5) if 1 <= n_.K <= 5]
     nperm = 0
@@ -149,7 +181,8 @@ def run(run):
     run.extra["edge_permutations"] = nperm
     judge(run, cases, descs)
     run.cov["exhaustive"] = not quick
-    run.cov["rule"] = ("every pairwise linear path for N<=5 (emitted by TLC from MC_Paths; quick: all N<=4 + 40 of N=5) x converters, "
+    run.cov["rule"] = ("every pairwise linear path for N<=5 (emitted by TLC from MC_Paths; quick: all N<=4 + 40 of N=5) and every path "
+                       "with single-tensor / three-way steps for N<=4 (MC_PathsGen; quick: 500 sampled) x converters, "
                        "tree constructors and emitters under 7 traversal orders; every permutation of the indices (<=5) of small "
                        "networks as edge path; distinct by (kind, api, input)")
 
